@@ -9,8 +9,10 @@ HEADER = "From CJ Require Import Common.Base C19.Model C19.Run.\n"
 NPROBE = 6
 
 # ------------------------------------------------------------------ the raw configuration record
-# kv values: "U" unset, "Z" zero, ("V", n) valid, "M" malformed
+# kv values: "U" unset, "Z" zero, ("V", n) valid, "M" malformed, "N" negative integer (cache capacities only)
 KV = ["U", "Z", ("V", 1), "M"]
+CAPKV = KV + ["N"]
+CAPS = ("cap_live", "cap_non")
 LISTS = ["block", "allow", "phantom", "domains"]
 KEYS = ["dur_live", "cap_live", "dur_non", "cap_non", "workers", "public", "geo_cc", "geo_asn"]
 BAD_CIDR = ["fc00::/7 ", "198.18.0.0/33", "not-a-subnet", "", "198.18.1.0", " 10.0.0.0/8", "2001:db8::/129"]
@@ -43,7 +45,7 @@ def toml_of(raw, rng):
     def kvline(key, v, zero, valid, bad):
         if v == "U":
             return
-        out.append("%s = %s" % (key, zero if v == "Z" else bad if v == "M" else valid(v[1])))
+        out.append("%s = %s" % (key, zero if v == "Z" else bad if v == "M" else str(rng.choice([-1, -3, -100000])) if v == "N" else valid(v[1])))
 
     if raw["other"]:
         out.append('log_level = "error"')
@@ -68,7 +70,7 @@ def toml_of(raw, rng):
 
 
 def g_kv(v):
-    return {"U": "Unset", "Z": "Zero", "M": "Malformed"}.get(v) or "(Valid %s)" % gN(v[1])
+    return {"U": "Unset", "Z": "Zero", "M": "Malformed", "N": "Negative"}.get(v) or "(Valid %s)" % gN(v[1])
 
 
 def g_raw(raw):
@@ -151,7 +153,7 @@ def rand_list(rng, allow_bad, nmax=4):
 def rand_raw(rng, p_bad=0.25, well_formed=False):
     r = default_raw()
     for k in KEYS:
-        v = rng.choice(KV)
+        v = rng.choice(CAPKV if k in CAPS else KV)
         if v == "M" and (well_formed or rng.random() > p_bad * 2):
             v = rng.choice(["U", "Z", ("V", 1)])
         if isinstance(v, tuple):
@@ -167,7 +169,7 @@ def rand_raw(rng, p_bad=0.25, well_formed=False):
 
 def pairwise_raws(rng):
     """every pair of (key, value-class) over the optional keys appears in some record (greedy covering)"""
-    dims = {k: list(KV) for k in KEYS}
+    dims = {k: list(CAPKV if k in CAPS else KV) for k in KEYS}
     dims["geo_cc"] = dims["geo_asn"] = ["U", "Z", "M"]
     for l in LISTS:
         dims[l] = ["unset", "empty", "valid", "bad"]
@@ -198,7 +200,7 @@ def single_key_raws():
     """each key alone in each of its classes (incl. the files that contain no RegConfig key at all)"""
     out = [default_raw(), dict(default_raw(), other=True)]
     for k in KEYS:
-        for v in KV:
+        for v in (CAPKV if k in CAPS else KV):
             if k in ("geo_cc", "geo_asn") and isinstance(v, tuple):
                 continue
             if v != "U":
@@ -207,7 +209,7 @@ def single_key_raws():
         for v in ([], [0, 3], [2, None], [None]):
             out.append(dict(default_raw(), **{l: v}))
     # liveness: the full product of the four cache keys
-    for dl, cl, dn, cn in itertools.product(KV, KV, KV, KV):
+    for dl, cl, dn, cn in itertools.product(KV, CAPKV, KV, CAPKV):
         out.append(dict(default_raw(), dur_live=dl, cap_live=cl, dur_non=dn, cap_non=cn, workers=("V", 2)))
     return out
 
